@@ -129,6 +129,14 @@ def _reader_job(args):
     out["tb8_trigger_not_completable"] = _w(pre - SL.prefix_closure(full), 2)
     from . import lexlang
     out["lex1"] = lexlang.check(repo, gcls, dcls)
+    # Q1: every text of the form q + s + q (q a quote character not occurring in s) is a quoted string for the decoder
+    q1 = {}
+    accq = cls["quoted string"]
+    for q in g.quotes:
+        body = SL.star(SL.ALLSYMS - SL.syms([q]))
+        written = SL.concat(SL.concat(SL.lit(q), body), SL.lit(q)) & alpha
+        q1[q] = _w(written - accq, 2)
+    out["q1"] = q1
     out["visited"] = sorted(set(rd.ctx.visited))
     return out
 
@@ -350,3 +358,31 @@ def rule_lex1(repo, res, an, kinds=("decimal number", "based integer", "date/tim
                                 "(the end-of-lexeme decision -- lex_continue() and the yield condition of lexer() -- has no "
                                 "exception for this spelling)", witness=c["witness"], where="pvl/lexer.py"))
     res.floor("LEX1 pairings", len(an["readers"]), 5)
+
+
+def rule_q1(repo, res, an):
+    """Q1: what the encoders write as a quoted string (quote + text without that quote + quote, including the empty
+    text) is a quoted string for every bundled decoder; and decode_quoted_string returns exactly the text between
+    the quotes (value[1:-1])."""
+    import ast
+    for r in an["readers"]:
+        cfg = f"{r['decoder']}/{r['grammar']}"
+        for q, ws in r["q1"].items():
+            res.oblige("Q1", f"{cfg}: every {q}...{q} text is accepted by decode_quoted_string", ok=not ws)
+            if ws:
+                res.add(Finding("Q1", f"{r['decoder']}.decode_quoted_string", f"{cfg}: {q}-quoted",
+                                f"with {cfg}, decode_quoted_string rejects {ws}, texts of the form quote + content + quote that "
+                                "the encoders write for strings: a quoted string is not read back as a string", witness=ws[0]))
+    fn = repo.method("PVLDecoder", "decode_quoted_string")
+    rets = [x for x in ast.walk(fn) if isinstance(x, ast.Return) and x.value is not None]
+    ok = False
+    for x in rets:
+        for sub in ast.walk(x.value):
+            if isinstance(sub, ast.Subscript) and isinstance(sub.slice, ast.Slice) and norm(sub.slice.lower or ast.Constant(value=0)) == "1" \
+                    and sub.slice.upper is not None and norm(sub.slice.upper) == "-1" and sub.slice.step is None:
+                ok = True
+    res.oblige("Q1", "PVLDecoder.decode_quoted_string returns value[1:-1] (exactly the text between the quotes)", ok=ok)
+    if not ok:
+        res.add(Finding("Q1", "PVLDecoder.decode_quoted_string", "value[1:-1]",
+                        "decode_quoted_string no longer returns exactly the text between the two quote characters",
+                        where=f"pvl/decoder.py:{fn.lineno}"))
